@@ -92,6 +92,9 @@ func (m c03) marshalAndValidate(c *Ctx, d *DocSpec, incl []c03include, useRange 
 			// a value that encoding/json cannot write (a time beyond year 9999, NaN in resource-level meta): the
 			// marshal may fail, but if it reports success the output is still a well-formed document
 			for i, res := range append(append([]jsonapi.Resource{}, b.Primary...), b.Included...) {
+				if tag == "unencodable-top-level-meta" {
+					break
+				}
 				if (i+len(tag))%2 == 0 {
 					if mh, ok := res.(jsonapi.MetaHolder); ok {
 						mh.SetMeta(jsonapi.Meta{"nan": math.NaN(), "ok": 1})
@@ -102,6 +105,13 @@ func (m c03) marshalAndValidate(c *Ctx, d *DocSpec, incl []c03include, useRange 
 						res.Set(a.Name, time.Date(12000+i, 1, 2, 3, 4, 5, 0, time.UTC))
 					}
 				}
+			}
+			if len(tag)%2 == 0 || len(b.Primary)+len(b.Included) == 0 {
+				// ... or in the document's own meta, at depth
+				if b.Doc.Meta == nil {
+					b.Doc.Meta = jsonapi.Meta{}
+				}
+				b.Doc.Meta["deep"] = map[string]any{"list": []any{1, math.Inf(1)}}
 			}
 			c.Count("documents_with_unencodable_values")
 		}
@@ -277,6 +287,9 @@ func (m c03) Case(c *Ctx, r *RNG) {
 	m.marshalAndValidate(c, d, nil, false, "as-given")
 	if c.Index%8 == 3 && (d.Kind == "resource" || d.Kind == "collection") {
 		m.marshalAndValidate(c, d, nil, false, "unencodable-values")
+	}
+	if c.Index%8 == 5 {
+		m.marshalAndValidate(c, d, nil, false, "unencodable-top-level-meta")
 	}
 
 	// the same document with included rebuilt through Include
